@@ -366,6 +366,11 @@ func (x *Exec) callAppend(s *State, call *ast.CallExpr) *Term {
 	k := BoundVar(x.freshName("k"), SInt)
 	s.assume(Forall([]*Term{k}, Implies(And(Cmp("<=", IntLit(0), k), Cmp("<", k, ln)),
 		Eq(Select(copied, k), Select(old, Arith("+", Field(sv, 1), k))))))
+	// ground instances of the copy axiom at the first and last old cell (the cells code most often reads next)
+	for _, kk := range []*Term{IntLit(0), Arith("-", ln, IntLit(1))} {
+		s.assume(Implies(And(Cmp("<=", IntLit(0), kk), Cmp("<", kk, ln)),
+			Eq(Select(copied, kk), Select(old, Arith("+", Field(sv, 1), kk)))))
+	}
 	arr := Ite(inplace, old, copied)
 	for i, v := range vals {
 		arr = Store(arr, Arith("+", Arith("+", off, ln), IntLit(int64(i))), v)
@@ -1392,6 +1397,7 @@ func (x *Exec) inTopClause() bool {
 var pureExternalPkgs = map[string]bool{
 	"time": true, "unicode/utf16": true, "unicode/utf8": true, "unicode": true, "strings": true, "strconv": true,
 	"math": true, "math/bits": true, "errors": true, "path/filepath": true, "image/color": true,
+	"github.com/tdewolff/font": true, "github.com/go-text/typesetting/language": true,
 }
 
 // callStatic: call of a known function with an already evaluated receiver
